@@ -151,10 +151,10 @@ Definition rel_continues (ts : list token) : bool :=
   | [] => false
   end.
 
-Definition res := option (eos * list token).
+Definition pres := option (eos * list token).
 
 Section Levels.
-  Variable rec : list token -> res.        (* parse_expr with less fuel *)
+  Variable rec : list token -> pres.        (* parse_expr with less fuel *)
   Variable fuel : nat.                       (* fuel of the chain / list loops *)
 
   (* Comma<Expr> up to the closing token; elements converted with into_expr *)
@@ -232,7 +232,7 @@ Section Levels.
           end
     end.
 
-  Definition parse_primary (ts : list token) : res :=
+  Definition parse_primary (ts : list token) : pres :=
     match ts with
     | TNum n :: ts' =>
         if n <=? i64_max_N then Some (EExpr (Lit (PLong (Z.of_N n))), ts') else None
@@ -280,7 +280,7 @@ Section Levels.
     end.
 
   (* the MemAccess* loop on an expression head (build_expr_accessor) *)
-  Fixpoint access_loop (n : nat) (cur : expr) (ts : list token) : res :=
+  Fixpoint access_loop (n : nat) (cur : expr) (ts : list token) : pres :=
     match ts with
     | TDot :: TIdent id :: TLParen :: ts' =>
         match n with
@@ -314,7 +314,7 @@ Section Levels.
     | _ => Some (EExpr cur, ts)
     end.
 
-  Definition parse_member (ts : list token) : res :=
+  Definition parse_member (ts : list token) : pres :=
     match parse_primary ts with
     | None => None
     | Some (prim, ts1) =>
@@ -335,7 +335,7 @@ Section Levels.
         else Some (prim, ts1)
     end.
 
-  Definition parse_unary (ts : list token) : res :=
+  Definition parse_unary (ts : list token) : pres :=
     let (nb, ts1) := count_tok is_bang ts in
     match nb with
     | S _ =>
@@ -369,7 +369,7 @@ Section Levels.
         end
     end.
 
-  Fixpoint mul_loop (n : nat) (acc : expr) (ts : list token) : res :=
+  Fixpoint mul_loop (n : nat) (acc : expr) (ts : list token) : pres :=
     match ts with
     | TStar :: ts' =>
         match n with
@@ -384,7 +384,7 @@ Section Levels.
     end.
   Definition mul_start (ts : list token) : bool :=
     match ts with TStar :: _ | TSlash :: _ | TPercent :: _ => true | _ => false end.
-  Definition parse_mul (ts : list token) : res :=
+  Definition parse_mul (ts : list token) : pres :=
     match parse_unary ts with
     | Some (r, ts1) =>
         if mul_start ts1 then match into_expr r with Some a => mul_loop fuel a ts1 | None => None end
@@ -392,7 +392,7 @@ Section Levels.
     | None => None
     end.
 
-  Fixpoint add_loop (n : nat) (acc : expr) (ts : list token) : res :=
+  Fixpoint add_loop (n : nat) (acc : expr) (ts : list token) : pres :=
     let step := fun (op : binop) (ts' : list token) =>
       match n with
       | O => None
@@ -408,7 +408,7 @@ Section Levels.
     end.
   Definition add_start (ts : list token) : bool :=
     match ts with TPlus :: _ | TMinus :: _ => true | _ => false end.
-  Definition parse_add (ts : list token) : res :=
+  Definition parse_add (ts : list token) : pres :=
     match parse_mul ts with
     | Some (r, ts1) =>
         if add_start ts1 then match into_expr r with Some a => add_loop fuel a ts1 | None => None end
@@ -427,7 +427,7 @@ Section Levels.
     | _ => None
     end.
 
-  Definition parse_rel (ts : list token) : res :=
+  Definition parse_rel (ts : list token) : pres :=
     match parse_add ts with
     | None => None
     | Some (r, ts1) =>
@@ -494,7 +494,7 @@ Section Levels.
         end
     end.
 
-  Fixpoint and_loop (n : nat) (acc : expr) (ts : list token) : res :=
+  Fixpoint and_loop (n : nat) (acc : expr) (ts : list token) : pres :=
     match ts with
     | TAndAnd :: ts' =>
         match n with
@@ -506,14 +506,14 @@ Section Levels.
         end
     | _ => Some (EExpr acc, ts)
     end.
-  Definition parse_and (ts : list token) : res :=
+  Definition parse_and (ts : list token) : pres :=
     match parse_rel ts with
     | Some (r, TAndAnd :: ts1) =>
         match into_expr r with Some a => and_loop fuel a (TAndAnd :: ts1) | None => None end
     | x => x
     end.
 
-  Fixpoint or_loop (n : nat) (acc : expr) (ts : list token) : res :=
+  Fixpoint or_loop (n : nat) (acc : expr) (ts : list token) : pres :=
     match ts with
     | TOrOr :: ts' =>
         match n with
@@ -525,7 +525,7 @@ Section Levels.
         end
     | _ => Some (EExpr acc, ts)
     end.
-  Definition parse_or (ts : list token) : res :=
+  Definition parse_or (ts : list token) : pres :=
     match parse_and ts with
     | Some (r, TOrOr :: ts1) =>
         match into_expr r with Some a => or_loop fuel a (TOrOr :: ts1) | None => None end
@@ -534,7 +534,7 @@ Section Levels.
 
   Definition starts_path (ts : list token) : bool := match ts with TColon2 :: _ => true | _ => false end.
 
-  Definition parse_expr_body (ts : list token) : res :=
+  Definition parse_expr_body (ts : list token) : pres :=
     match ts with
     | TIdent s :: ts' =>
         if kw "if" s then
@@ -564,7 +564,7 @@ Section Levels.
     end.
 End Levels.
 
-Fixpoint parse_expr (fuel : nat) (ts : list token) : res :=
+Fixpoint parse_expr (fuel : nat) (ts : list token) : pres :=
   match fuel with
   | O => None
   | S f => parse_expr_body (parse_expr f) f ts
